@@ -155,6 +155,8 @@ def _tools():
     T["max"] = (1, 1, lambda S, n: A.max(S[0], key=lambda x: x.key), "agg", {})
     T["reduce"] = (1, 1, lambda S, n: A.reduce(lambda a, b: b, S[0]), "agg", {})
     T["nlargest5"] = (1, 5, lambda S, n: A.nlargest(S[0], 5), "agg", {})
+    T["nlargest40"] = (1, 40, lambda S, n: A.nlargest(S[0], 40, key=lambda x: x.key % 97), "agg", {})
+    T["nsmallest40"] = (1, 40, lambda S, n: A.nsmallest(S[0], 40, key=lambda x: -x.key), "agg", {})
     T["nsmallest9"] = (1, 9, lambda S, n: A.nsmallest(S[0], 9, key=lambda x: -x.key), "agg", {})
     return T
 
